@@ -71,10 +71,10 @@ Proof.
   eapply same_blk_trans; [apply H|]. apply IHl. exact H.
 Qed.
 
-Lemma check_node_sb : forall w grace c cn, same_blk c (fst (check_node w grace c cn)).
+Lemma check_node_k_sb : forall w grace c cn kn, same_blk c (fst (check_node_k w grace c cn kn)).
 Proof.
-  intros. unfold check_node.
-  set (kn := knode_for w c cn). set (kex := negb (N.eqb kn 0) && nmem kn (w_knodes w)).
+  intros. unfold check_node_k.
+  set (kex := negb (N.eqb kn 0) && nmem kn (w_knodes w)).
   assert (H : same_blk c (fst (fst (fold_left (check_alloc w grace kn kex) (ri_ids cn (c_bynode c)) (c, true, []))))).
   { generalize (ri_ids cn (c_bynode c)). intros l.
     change c with (fst (fst (c, true, @nil id))) at 1.
@@ -85,6 +85,11 @@ Proof.
   - eapply same_blk_trans; [exact H|apply mark_clean_sb].
   - eapply same_blk_trans; [exact H|]. apply fold_sb. apply confirm_tunnel_sb.
   - eapply same_blk_trans; [exact H|apply mark_clean_sb].
+Qed.
+
+Lemma check_node_sb : forall w grace c cn, same_blk c (fst (check_node w grace c cn)).
+Proof.
+  intros. unfold check_node. destruct (knode_for w c cn); [apply check_node_k_sb|]. cbn [fst]. apply mark_clean_sb.
 Qed.
 
 Lemma check_nodes_sb : forall w grace ns c, same_blk c (fst (check_nodes w grace ns c)).
